@@ -25,7 +25,6 @@ func ConvertVarsToReplacements(fSys filesys.FileSystem, k *types.Kustomization) 
 	}
 
 	k.Resources = append(k.Resources, k.Bases...)
-	k.Replacements = []types.ReplacementField{}
 
 	files, err := filesTouchedByKustomize(k, "", fSys)
 	if err != nil {
